@@ -393,4 +393,579 @@ theorem writeChunk_spec {k k' : Snk} {at_ : Nat × Nat} {pt : Bytes} {r : Bool} 
     · intro hf
       exact Snk.flush_benign (Snk.benign_of_suffix hf h6 ⟨[], by rw [h4]; rfl⟩) h
 
+/-- what the pure level says when the read phase reports an error -/
+theorem readRecordIO_fail_pure {A : Aead} {key aad : Bytes} {cs ctr : Nat} {s s3 : Src} {e : Res}
+    (h : readRecordIO A key aad cs ctr s = (.fail e, s3)) (fuel0 : Nat) :
+    (e ≠ .ioRead → decLoop A key aad cs (fuel0+1) ctr s.inp = ([], e)) ∧
+    (s.faultFree → decLoop A key aad cs (fuel0+1) ctr s.inp = ([], e)) := by
+  obtain ⟨_, _, hf⟩ := readRecordIO_spec h
+  have hcases : e ≠ .ioRead → decLoop A key aad cs (fuel0+1) ctr s.inp = ([], e) := by
+    intro hne
+    rcases hf e rfl with ⟨_, h2⟩ | ⟨h1, pt, rest', h2, h3⟩ | ⟨h1, _⟩
+    · rw [decLoop_succ, h2]
+    · rw [decLoop_succ, h2, h1]
+      have : rest'.length ≠ 0 := fun h0 => h3 (List.eq_nil_of_length_eq_zero h0)
+      simp only [if_true, this, ne_eq, not_false_eq_true]
+    · exact absurd h1 hne
+  refine ⟨hcases, fun hs => ?_⟩
+  by_cases he : e = .ioRead
+  · subst he
+    rw [decLoop_succ, readRecordIO_ioRead_faultFree h hs]
+  · exact hcases he
+
+variable (A : Aead) (key aad : Bytes) (cs : Nat)
+
+/-! ### (a), (b), (e): what is written is a whole-chunk prefix of the fault-free output -/
+
+/-- **Refinement (a)+(b)+(e).** For every source script that does not forge an end-of-stream and EVERY sink script: at every
+    stopping point the output is whole decrypted chunks of the pure run, in order, plus a partial chunk only if the sink
+    itself failed; success implies pure success and the complete output. -/
+theorem decLoopIO_prefix : ∀ (fuel fuel0 ctr : Nat) (s : Src) (k : Snk) (res : Res) (s' : Src) (k' : Snk)
+    (ws : List Bytes) (pres : Res),
+    s.noFalseEof → s.inp.length + 1 ≤ fuel → s.inp.length ≤ fuel0 →
+    decLoopIO A key aad cs fuel ctr s k = (res, s', k') →
+    decLoop A key aad cs fuel0 ctr s.inp = (ws, pres) →
+    ∃ j q, k'.out = k.out ++ (ws.take j).flatten ++ q ∧ j ≤ ws.length ∧
+      (q = [] ∨ (res = .ioWrite ∧ ∃ w, ws[j]? = some w ∧ q <+: w)) ∧
+      (res = .ok → pres = .ok ∧ j = ws.length ∧ q = []) := by
+  intro fuel
+  induction fuel with
+  | zero => intro fuel0 ctr s k res s' k' ws pres _ hf; omega
+  | succ f ih =>
+    intro fuel0 ctr s k res s' k' ws pres hnf hf hf0 hIO hP
+    rw [← decLoop_fuel_succ A key aad cs fuel0 ctr s.inp hf0, decLoop_succ] at hP
+    rw [decLoopIO_succ] at hIO
+    rcases hrr : readRecordIO A key aad cs ctr s with ⟨o, s3⟩
+    rw [hrr] at hIO
+    obtain ⟨hsc, hchunk, _⟩ := readRecordIO_spec hrr
+    cases o with
+    | fail e =>
+      simp only [Prod.mk.injEq] at hIO
+      obtain ⟨rfl, rfl, rfl⟩ := hIO
+      refine ⟨0, [], by simp, Nat.zero_le _, Or.inl rfl, ?_⟩
+      intro hok
+      have := readRecordIO_fail_kind hrr
+      simp [hok] at this
+    | chunk pt last =>
+      obtain ⟨rest', hp1, hi3, hpos3, hlast⟩ := hchunk pt last rfl
+      rw [hp1] at hP
+      simp only at hP hIO
+      have hlen := parse1_chunk_len hp1
+      rcases hwc : writeChunk k (s3.pos, s3.nreads) pt with ⟨r, k2⟩
+      rw [hwc] at hIO
+      obtain ⟨p, L, ho, hpp, hpt, _⟩ := writeChunk_spec hwc
+      cases last with
+      | true =>
+        have hr : rest' = [] := hlast rfl hnf
+        subst hr
+        simp only [if_true, List.length_nil, ne_eq, not_true_eq_false, if_false, Prod.mk.injEq] at hP
+        obtain ⟨rfl, rfl⟩ := hP
+        cases r with
+        | false =>
+          simp only [Prod.mk.injEq] at hIO; obtain ⟨rfl, rfl, rfl⟩ := hIO
+          exact ⟨0, p, by simp [ho], by simp, Or.inr ⟨rfl, pt, by simp, hpp⟩, by simp⟩
+        | true =>
+          simp only [if_true, Prod.mk.injEq] at hIO; obtain ⟨rfl, rfl, rfl⟩ := hIO
+          exact ⟨1, [], by simp [ho, hpt rfl], by simp, Or.inl rfl, fun _ => ⟨rfl, rfl, rfl⟩⟩
+      | false =>
+        simp only [Bool.false_eq_true, if_false, Prod.mk.injEq] at hP
+        obtain ⟨rfl, rfl⟩ := hP
+        cases r with
+        | false =>
+          simp only [Prod.mk.injEq] at hIO; obtain ⟨rfl, rfl, rfl⟩ := hIO
+          exact ⟨0, p, by simp [ho], by simp, Or.inr ⟨rfl, pt, by simp, hpp⟩, by simp⟩
+        | true =>
+          simp only [Bool.false_eq_true, if_false] at hIO
+          obtain ⟨j, q, h1, h2, h3, h4⟩ := ih fuel0 (ctr+1) s3 k2 res s' k' _ _ (Src.noFalseEof_of_suffix hnf hsc)
+            (by rw [hi3]; omega) (by rw [hi3]; omega) hIO (by rw [hi3])
+          refine ⟨j+1, q, by rw [h1, ho, hpt rfl]; simp, by simp only [List.length_cons]; omega, ?_, ?_⟩
+          · simpa using h3
+          · intro hok
+            obtain ⟨h5, h6, h7⟩ := h4 hok
+            exact ⟨h5, by simp only [List.length_cons]; omega, h7⟩
+
+/-- **(b)** success at the I/O level implies success at the pure level and the complete output -/
+theorem decLoopIO_ok {fuel fuel0 ctr : Nat} {s s' : Src} {k k' : Snk} {ws : List Bytes} {pres : Res}
+    (hnf : s.noFalseEof) (hf : s.inp.length + 1 ≤ fuel) (hf0 : s.inp.length ≤ fuel0)
+    (hIO : decLoopIO A key aad cs fuel ctr s k = (.ok, s', k'))
+    (hP : decLoop A key aad cs fuel0 ctr s.inp = (ws, pres)) :
+    pres = .ok ∧ k'.out = k.out ++ ws.flatten := by
+  obtain ⟨j, q, h1, _, _, h4⟩ := decLoopIO_prefix A key aad cs fuel fuel0 ctr s k .ok s' k' ws pres hnf hf hf0 hIO hP
+  obtain ⟨h5, rfl, rfl⟩ := h4 rfl
+  exact ⟨h5, by simpa using h1⟩
+
+/-- **(e)** once an error other than a sink error is decided nothing more is written: the output is whole chunks only -/
+theorem decLoopIO_err_whole {fuel fuel0 ctr : Nat} {s s' : Src} {k k' : Snk} {res : Res} {ws : List Bytes} {pres : Res}
+    (hnf : s.noFalseEof) (hf : s.inp.length + 1 ≤ fuel) (hf0 : s.inp.length ≤ fuel0)
+    (hIO : decLoopIO A key aad cs fuel ctr s k = (res, s', k'))
+    (hP : decLoop A key aad cs fuel0 ctr s.inp = (ws, pres)) (hw : res ≠ .ioWrite) :
+    ∃ j, j ≤ ws.length ∧ k'.out = k.out ++ (ws.take j).flatten := by
+  obtain ⟨j, q, h1, h2, h3, _⟩ := decLoopIO_prefix A key aad cs fuel fuel0 ctr s k res s' k' ws pres hnf hf hf0 hIO hP
+  rcases h3 with rfl | ⟨h3, _⟩
+  · exact ⟨j, h2, by simpa using h1⟩
+  · exact absurd h3 hw
+
+/-! ### (d): error classification -/
+
+/-- **(d1)** a sink error is reported only if the sink misbehaved — for EVERY source script -/
+theorem decLoopIO_ioWrite : ∀ (fuel ctr : Nat) (s : Src) (k : Snk) (s' : Src) (k' : Snk),
+    decLoopIO A key aad cs fuel ctr s k = (.ioWrite, s', k') → ¬ k.faultFree := by
+  intro fuel
+  induction fuel with
+  | zero => intro ctr s k s' k' h; simp [decLoopIO] at h
+  | succ f ih =>
+    intro ctr s k s' k' hIO hk
+    rw [decLoopIO_succ] at hIO
+    rcases hrr : readRecordIO A key aad cs ctr s with ⟨o, s3⟩
+    rw [hrr] at hIO
+    cases o with
+    | fail e =>
+      simp only [Prod.mk.injEq] at hIO
+      obtain ⟨rfl, rfl, rfl⟩ := hIO
+      have := readRecordIO_fail_kind hrr
+      simp at this
+    | chunk pt last =>
+      simp only at hIO
+      rcases hwc : writeChunk k (s3.pos, s3.nreads) pt with ⟨r, k2⟩
+      rw [hwc] at hIO
+      obtain ⟨p, L, _, _, _, _, _, _, hff, _⟩ := writeChunk_spec hwc
+      obtain ⟨rfl, hk2⟩ := hff hk
+      simp only at hIO
+      cases last with
+      | true => simp at hIO
+      | false =>
+        simp only [Bool.false_eq_true, if_false] at hIO
+        exact ih (ctr+1) s3 k2 s' k' hIO hk2
+
+/-- **(d2)+(d3)** every other error agrees with the pure level: `auth`, `chunkLen`, `unexpectedData` for EVERY script;
+    `ioRead` whenever the source is fault-free (i.e. then the data itself is truncated) -/
+theorem decLoopIO_err_agree : ∀ (fuel fuel0 ctr : Nat) (s : Src) (k : Snk) (res : Res) (s' : Src) (k' : Snk)
+    (ws : List Bytes) (pres : Res),
+    s.inp.length + 1 ≤ fuel → s.inp.length ≤ fuel0 →
+    decLoopIO A key aad cs fuel ctr s k = (res, s', k') →
+    decLoop A key aad cs fuel0 ctr s.inp = (ws, pres) →
+    (res = .ioRead → s.faultFree) → res ≠ .ok → res ≠ .ioWrite → pres = res := by
+  intro fuel
+  induction fuel with
+  | zero => intro fuel0 ctr s k res s' k' ws pres hf; omega
+  | succ f ih =>
+    intro fuel0 ctr s k res s' k' ws pres hf hf0 hIO hP hrd hok hwr
+    rw [← decLoop_fuel_succ A key aad cs fuel0 ctr s.inp hf0] at hP
+    rw [decLoopIO_succ] at hIO
+    rcases hrr : readRecordIO A key aad cs ctr s with ⟨o, s3⟩
+    rw [hrr] at hIO
+    obtain ⟨hsc, hchunk, _⟩ := readRecordIO_spec hrr
+    cases o with
+    | fail e =>
+      simp only [Prod.mk.injEq] at hIO
+      obtain ⟨rfl, rfl, rfl⟩ := hIO
+      obtain ⟨h1, h2⟩ := readRecordIO_fail_pure hrr fuel0
+      by_cases he : e = .ioRead
+      · rw [h2 (hrd he)] at hP
+        simp only [Prod.mk.injEq] at hP; exact hP.2.symm
+      · rw [h1 he] at hP
+        simp only [Prod.mk.injEq] at hP; exact hP.2.symm
+    | chunk pt last =>
+      obtain ⟨rest', hp1, hi3, hpos3, hlast⟩ := hchunk pt last rfl
+      rw [decLoop_succ, hp1] at hP
+      simp only at hP hIO
+      have hlen := parse1_chunk_len hp1
+      rcases hwc : writeChunk k (s3.pos, s3.nreads) pt with ⟨r, k2⟩
+      rw [hwc] at hIO
+      cases r with
+      | false =>
+        simp only [Prod.mk.injEq] at hIO; exact absurd hIO.1.symm hwr
+      | true =>
+        cases last with
+        | true => simp only [if_true, Prod.mk.injEq] at hIO; exact absurd hIO.1.symm hok
+        | false =>
+          simp only [Bool.false_eq_true, if_false, Prod.mk.injEq] at hP hIO
+          obtain ⟨_, rfl⟩ := hP
+          exact ih fuel0 (ctr+1) s3 k2 res s' k' _ _ (by rw [hi3]; omega) (by rw [hi3]; omega) hIO (by rw [hi3])
+            (fun h => Src.faultFree_of_suffix (hrd h) hsc) hok hwr
+
+/-- **(d2)** in the wording of the property: a read error means the source misbehaved or the data is truncated -/
+theorem decLoopIO_ioRead {fuel fuel0 ctr : Nat} {s s' : Src} {k k' : Snk} {ws : List Bytes} {pres : Res}
+    (hf : s.inp.length + 1 ≤ fuel) (hf0 : s.inp.length ≤ fuel0)
+    (hIO : decLoopIO A key aad cs fuel ctr s k = (.ioRead, s', k'))
+    (hP : decLoop A key aad cs fuel0 ctr s.inp = (ws, pres)) : ¬ s.faultFree ∨ pres = .ioRead := by
+  by_cases hs : s.faultFree
+  · exact Or.inr (decLoopIO_err_agree A key aad cs fuel fuel0 ctr s k .ioRead s' k' ws pres hf hf0 hIO hP (fun _ => hs)
+      (by simp) (by simp))
+  · exact Or.inl hs
+
+/-- **(d3)** `auth`, `chunkLen`, `unexpectedData` are never caused by the I/O layer -/
+theorem decLoopIO_pure_err {fuel fuel0 ctr : Nat} {s s' : Src} {k k' : Snk} {res : Res} {ws : List Bytes} {pres : Res}
+    (hf : s.inp.length + 1 ≤ fuel) (hf0 : s.inp.length ≤ fuel0)
+    (hIO : decLoopIO A key aad cs fuel ctr s k = (res, s', k'))
+    (hP : decLoop A key aad cs fuel0 ctr s.inp = (ws, pres))
+    (hres : res = .auth ∨ res = .chunkLen ∨ res = .unexpectedData) : pres = res := by
+  refine decLoopIO_err_agree A key aad cs fuel fuel0 ctr s k res s' k' ws pres hf hf0 hIO hP ?_ ?_ ?_
+  · intro h; rcases hres with h' | h' | h' <;> rw [h'] at h <;> simp at h
+  · rcases hres with h' | h' | h' <;> rw [h'] <;> simp
+  · rcases hres with h' | h' | h' <;> rw [h'] <;> simp
+
+/-! ### (c): partition / partial-write independence -/
+
+/-- **Refinement (c), exact form for benign scripts** (short reads and interruptions at the source; partial writes and
+    interruptions at the sink). Either the I/O run agrees with the pure run — same result, complete output — or the single
+    un-retried `read()` of the trailing-data probe was interrupted: then the result is `ioRead`, every chunk before the
+    final one has been written and the final one has not. -/
+theorem decLoopIO_benign : ∀ (fuel fuel0 ctr : Nat) (s : Src) (k : Snk) (res : Res) (s' : Src) (k' : Snk)
+    (ws : List Bytes) (pres : Res),
+    s.benign → k.benign → s.inp.length + 1 ≤ fuel → s.inp.length ≤ fuel0 →
+    decLoopIO A key aad cs fuel ctr s k = (res, s', k') →
+    decLoop A key aad cs fuel0 ctr s.inp = (ws, pres) →
+    (res = pres ∧ k'.out = k.out ++ ws.flatten) ∨
+    (res = .ioRead ∧ (∃ pre, s.script = pre ++ .errInterrupted :: s'.script) ∧
+      ((pres = .unexpectedData ∧ k'.out = k.out ++ ws.flatten) ∨
+       (pres = .ok ∧ ∃ init fin, ws = init ++ [fin] ∧ k'.out = k.out ++ init.flatten))) := by
+  intro fuel
+  induction fuel with
+  | zero => intro fuel0 ctr s k res s' k' ws pres _ _ hf; omega
+  | succ f ih =>
+    intro fuel0 ctr s k res s' k' ws pres hs hk hf hf0 hIO hP
+    rw [← decLoop_fuel_succ A key aad cs fuel0 ctr s.inp hf0] at hP
+    rw [decLoopIO_succ] at hIO
+    rcases hrr : readRecordIO A key aad cs ctr s with ⟨o, s3⟩
+    rw [hrr] at hIO
+    obtain ⟨hsc, hchunk, hfail⟩ := readRecordIO_spec hrr
+    cases o with
+    | fail e =>
+      simp only [Prod.mk.injEq] at hIO
+      obtain ⟨rfl, rfl, rfl⟩ := hIO
+      obtain ⟨h1, _⟩ := readRecordIO_fail_pure hrr fuel0
+      by_cases he : e = .ioRead
+      · subst he
+        rcases hfail .ioRead rfl with ⟨h2, _⟩ | ⟨h2, _⟩ | ⟨_, h2⟩
+        · rcases h2 with h2 | h2 <;> simp at h2
+        · simp at h2
+        · rcases h2 hs with h3 | ⟨pt, rest', h3, _, hint⟩
+          · rw [decLoop_succ, h3] at hP
+            simp only [Prod.mk.injEq] at hP; obtain ⟨rfl, rfl⟩ := hP
+            exact Or.inl ⟨rfl, by simp⟩
+          · rw [decLoop_succ, h3] at hP
+            simp only [if_true] at hP
+            refine Or.inr ⟨rfl, hint, ?_⟩
+            split at hP
+            · simp only [Prod.mk.injEq] at hP; obtain ⟨rfl, rfl⟩ := hP
+              exact Or.inl ⟨rfl, by simp⟩
+            · simp only [Prod.mk.injEq] at hP; obtain ⟨rfl, rfl⟩ := hP
+              exact Or.inr ⟨rfl, [], pt, rfl, by simp⟩
+      · rw [h1 he] at hP
+        simp only [Prod.mk.injEq] at hP; obtain ⟨rfl, rfl⟩ := hP
+        exact Or.inl ⟨rfl, by simp⟩
+    | chunk pt last =>
+      obtain ⟨rest', hp1, hi3, hpos3, hlast⟩ := hchunk pt last rfl
+      rw [decLoop_succ, hp1] at hP
+      simp only at hP hIO
+      have hlen := parse1_chunk_len hp1
+      rcases hwc : writeChunk k (s3.pos, s3.nreads) pt with ⟨r, k2⟩
+      rw [hwc] at hIO
+      obtain ⟨p, L, ho, hpp, hpt, _, _, _, _, hbn⟩ := writeChunk_spec hwc
+      obtain ⟨rfl, hk2⟩ := hbn hk
+      simp only at hIO
+      cases last with
+      | true =>
+        have hr : rest' = [] := hlast rfl hs.noFalseEof
+        subst hr
+        simp only [if_true, List.length_nil, ne_eq, not_true_eq_false, if_false, Prod.mk.injEq] at hP hIO
+        obtain ⟨rfl, rfl⟩ := hP
+        obtain ⟨rfl, rfl, rfl⟩ := hIO
+        exact Or.inl ⟨rfl, by simp [ho, hpt rfl]⟩
+      | false =>
+        simp only [Bool.false_eq_true, if_false, Prod.mk.injEq] at hP hIO
+        obtain ⟨rfl, rfl⟩ := hP
+        rcases ih fuel0 (ctr+1) s3 k2 res s' k' _ _ (Src.benign_of_suffix hs hsc) hk2
+            (by rw [hi3]; omega) (by rw [hi3]; omega) hIO (by rw [hi3]) with ⟨h1, h2⟩ | ⟨h1, ⟨pre, hpre⟩, h3⟩
+        · exact Or.inl ⟨h1, by rw [h2, ho, hpt rfl]; simp⟩
+        · obtain ⟨pre0, hpre0⟩ := hsc
+          refine Or.inr ⟨h1, ⟨pre0 ++ pre, by rw [hpre0, hpre, List.append_assoc]⟩, ?_⟩
+          rcases h3 with ⟨h4, h5⟩ | ⟨h4, init, fin, h5, h6⟩
+          · exact Or.inl ⟨h4, by rw [h5, ho, hpt rfl]; simp⟩
+          · exact Or.inr ⟨h4, pt :: init, fin, by rw [h5]; rfl, by rw [h6, ho, hpt rfl]; simp⟩
+
+/-- **Refinement (c).** Fault-free source (any partition into short reads), benign sink (any partial writes, retried
+    interruptions): the I/O run is the pure run. -/
+theorem decLoopIO_faultFree {fuel fuel0 ctr : Nat} {s s' : Src} {k k' : Snk} {res : Res} {ws : List Bytes} {pres : Res}
+    (hs : s.faultFree) (hk : k.benign) (hf : s.inp.length + 1 ≤ fuel) (hf0 : s.inp.length ≤ fuel0)
+    (hIO : decLoopIO A key aad cs fuel ctr s k = (res, s', k'))
+    (hP : decLoop A key aad cs fuel0 ctr s.inp = (ws, pres)) :
+    res = pres ∧ k'.out = k.out ++ ws.flatten := by
+  rcases decLoopIO_benign A key aad cs fuel fuel0 ctr s k res s' k' ws pres hs.benign hk hf hf0 hIO hP with h | ⟨_, ⟨pre, hpre⟩, _⟩
+  · exact h
+  · obtain ⟨n, hn, _⟩ := hs .errInterrupted (by rw [hpre]; simp)
+    simp at hn
+
+/-! ### (b'): the hypothesis-free form of (b) — the reader's declared end of stream is the end of the file -/
+
+/-- parsing the first record only looks at that record -/
+theorem parse1_take {A : Aead} {key aad : Bytes} {cs ctr : Nat} {inp pt rest' : Bytes} {last : Bool}
+    (h : parse1 A key aad cs ctr inp = .chunk pt last rest') (t : Nat) :
+    parse1 A key aad cs ctr (inp.take (inp.length - rest'.length + t)) = .chunk pt last (rest'.take t) := by
+  unfold parse1 at h
+  split at h
+  · simp at h
+  · rename_i h16
+    split at h
+    · simp at h
+    · rename_i hcs
+      split at h
+      · simp at h
+      · rename_i hbody
+        split at h
+        · simp at h
+        · rename_i pt' hdec
+          simp only [POut.chunk.injEq] at h
+          obtain ⟨rfl, rfl, rfl⟩ := h
+          generalize hlen : beVal ((inp.take 16).drop 12) = len at *
+          simp only [List.length_drop] at hbody
+          have hm : inp.length - ((inp.drop 16).drop (len + 16)).length = 32 + len := by
+            simp only [List.length_drop]; omega
+          rw [hm]
+          have e1 : (inp.take (32 + len + t)).take 16 = inp.take 16 := by
+            rw [List.take_take]; congr 1; omega
+          have e2 : (inp.take (32 + len + t)).drop 16 = (inp.drop 16).take (16 + len + t) := by
+            rw [List.drop_take]; congr 1; omega
+          have e3 : ((inp.drop 16).take (16 + len + t)).take (len + 16) = (inp.drop 16).take (len + 16) := by
+            rw [List.take_take]; congr 1; omega
+          have e4 : ((inp.drop 16).take (16 + len + t)).drop (len + 16) = ((inp.drop 16).drop (len + 16)).take t := by
+            rw [List.drop_take]; congr 1; omega
+          have l1 : ¬ (inp.take (32 + len + t)).length < 16 := by
+            simp only [List.length_take]; omega
+          have l2 : ¬ ((inp.drop 16).take (16 + len + t)).length < len + 16 := by
+            simp only [List.length_take, List.length_drop]; omega
+          unfold parse1
+          rw [if_neg l1, e1, hlen, if_neg hcs, e2, if_neg l2, e3, hdec, e4]
+
+/-- **(b′), ALL scripts, no hypothesis.** If the I/O run succeeds then the bytes it consumed, `s.inp.take n` with
+    `n = s'.pos - s.pos`, form a complete stream on which the pure run succeeds, and exactly its output was written.
+    (With `noFalseEof` the consumed bytes are all of `s.inp`: `decLoopIO_ok`.) -/
+theorem decLoopIO_ok_consumed (A : Aead) (key aad : Bytes) (cs : Nat) : ∀ (fuel ctr : Nat) (s : Src) (k : Snk) (s' : Src) (k' : Snk),
+    s.inp.length + 1 ≤ fuel →
+    decLoopIO A key aad cs fuel ctr s k = (.ok, s', k') →
+    ∃ n ws1, s'.pos = s.pos + n ∧ n ≤ s.inp.length ∧ s'.inp = s.inp.drop n ∧
+      (∀ fuel0, n ≤ fuel0 → decLoop A key aad cs fuel0 ctr (s.inp.take n) = (ws1, .ok)) ∧
+      k'.out = k.out ++ ws1.flatten := by
+  intro fuel
+  induction fuel with
+  | zero => intro ctr s k s' k' hf; omega
+  | succ f ih =>
+    intro ctr s k s' k' hf hIO
+    rw [decLoopIO_succ] at hIO
+    rcases hrr : readRecordIO A key aad cs ctr s with ⟨o, s3⟩
+    rw [hrr] at hIO
+    obtain ⟨hsc, hchunk, _⟩ := readRecordIO_spec hrr
+    cases o with
+    | fail e =>
+      simp only [Prod.mk.injEq] at hIO
+      obtain ⟨rfl, rfl, rfl⟩ := hIO
+      have := readRecordIO_fail_kind hrr
+      simp at this
+    | chunk pt last =>
+      obtain ⟨rest', hp1, hi3, hpos3, _⟩ := hchunk pt last rfl
+      simp only at hIO
+      have hlen := parse1_chunk_len hp1
+      rcases hwc : writeChunk k (s3.pos, s3.nreads) pt with ⟨r, k2⟩
+      rw [hwc] at hIO
+      obtain ⟨p, L, ho, hpp, hpt, _⟩ := writeChunk_spec hwc
+      cases r with
+      | false => simp at hIO
+      | true =>
+        simp only at hIO
+        have hdrop : s.inp.drop (s.inp.length - rest'.length) = rest' := by
+          unfold parse1 at hp1
+          split at hp1
+          · simp at hp1
+          · split at hp1
+            · simp at hp1
+            · split at hp1
+              · simp at hp1
+              · rename_i hbody
+                split at hp1
+                · simp at hp1
+                · simp only [POut.chunk.injEq] at hp1
+                  obtain ⟨_, _, rfl⟩ := hp1
+                  simp only [List.length_drop] at hbody ⊢
+                  rw [List.drop_drop]; congr 1; omega
+        cases last with
+        | true =>
+          simp only [if_true, Prod.mk.injEq] at hIO
+          obtain ⟨rfl, rfl⟩ := hIO
+          refine ⟨s.inp.length - rest'.length, [pt], by omega, by omega, by rw [hi3, hdrop], ?_, by simp [ho, hpt rfl]⟩
+          intro fuel0 hf0
+          obtain ⟨f0, rfl⟩ : ∃ f0, fuel0 = f0 + 1 := ⟨fuel0 - 1, by omega⟩
+          have := parse1_take hp1 0
+          simp only [Nat.add_zero, List.take_zero] at this
+          rw [decLoop_succ, this]
+          simp
+        | false =>
+          simp only [Bool.false_eq_true, if_false] at hIO
+          obtain ⟨n1, ws1, h1, h2, h3, h4, h5⟩ := ih (ctr+1) s3 k2 s' k' (by rw [hi3]; omega) hIO
+          rw [hi3] at h2 h3 h4
+          refine ⟨s.inp.length - rest'.length + n1, pt :: ws1, by omega, by omega, ?_, ?_, by rw [h5, ho, hpt rfl]; simp⟩
+          · rw [h3, ← hdrop, List.drop_drop]
+          · intro fuel0 hf0
+            obtain ⟨f0, rfl⟩ : ∃ f0, fuel0 = f0 + 1 := ⟨fuel0 - 1, by omega⟩
+            rw [decLoop_succ, parse1_take hp1 n1]
+            simp only [Bool.false_eq_true, if_false]
+            rw [h4 f0 (by omega)]
+
+/-! ### (f): ordering facts recorded in the sink's log -/
+
+/-- offset just past record `i` of a stream whose chunks are `ws` (a record is 32 bytes longer than its chunk) -/
+def recEnd (ws : List Bytes) (i : Nat) : Nat := ((ws.take (i+1)).map (fun w => 32 + w.length)).sum
+
+/-- `LogSegs base ws segs`: `segs` are the log entries in chronological order, grouped by chunk; the entries of the chunk
+    `w` whose record starts at source offset `base` all carry the source position just past that record, their sizes sum
+    to at most `|w|`, and to exactly `|w|` if any later chunk has an entry group. -/
+def LogSegs (base : Nat) : List Bytes → List (List WLog) → Prop
+  | _, [] => True
+  | [], _ :: _ => False
+  | w :: ws, seg :: segs =>
+    (∀ e ∈ seg, e.srcPos = base + 32 + w.length) ∧ (seg.map (·.n)).sum ≤ w.length ∧
+    (segs ≠ [] → (seg.map (·.n)).sum = w.length) ∧ LogSegs (base + 32 + w.length) ws segs
+
+theorem recEnd_zero (w : Bytes) (ws : List Bytes) : recEnd (w :: ws) 0 = 32 + w.length := by
+  simp [recEnd]
+
+theorem recEnd_succ (w : Bytes) (ws : List Bytes) (i : Nat) : recEnd (w :: ws) (i+1) = 32 + w.length + recEnd ws i := by
+  simp [recEnd]
+
+/-- index form of `LogSegs` -/
+theorem LogSegs.index : ∀ (ws : List Bytes) (segs : List (List WLog)) (base : Nat), LogSegs base ws segs →
+    segs.length ≤ ws.length ∧
+    ∀ i seg, segs[i]? = some seg → ∃ w, ws[i]? = some w ∧ (∀ e ∈ seg, e.srcPos = base + recEnd ws i) ∧
+      (seg.map (·.n)).sum ≤ w.length ∧ (i + 1 < segs.length → (seg.map (·.n)).sum = w.length) := by
+  intro ws
+  induction ws with
+  | nil =>
+    intro segs base h
+    cases segs with
+    | nil => exact ⟨Nat.le_refl _, fun i seg hi => by simp at hi⟩
+    | cons a b => simp [LogSegs] at h
+  | cons w ws ih =>
+    intro segs base h
+    cases segs with
+    | nil => exact ⟨Nat.zero_le _, fun i seg hi => by simp at hi⟩
+    | cons seg0 segs =>
+      simp only [LogSegs] at h
+      obtain ⟨h1, h2, h3, h4⟩ := h
+      obtain ⟨ih1, ih2⟩ := ih segs _ h4
+      refine ⟨by simp only [List.length_cons]; omega, ?_⟩
+      intro i seg hi
+      cases i with
+      | zero =>
+        simp only [List.getElem?_cons_zero, Option.some.injEq] at hi
+        subst hi
+        refine ⟨w, rfl, ?_, h2, ?_⟩
+        · intro e he; rw [h1 e he, recEnd_zero]; omega
+        · intro hl
+          apply h3
+          intro hn; rw [hn] at hl; simp at hl
+      | succ i =>
+        simp only [List.getElem?_cons_succ] at hi
+        obtain ⟨w', hw', hp, hs1, hs2⟩ := ih2 i seg hi
+        refine ⟨w', by simpa using hw', ?_, hs1, ?_⟩
+        · intro e he; rw [hp e he, recEnd_succ]; omega
+        · intro hl; apply hs2; simp only [List.length_cons] at hl; omega
+
+/-- **Refinement (f), invariant form.** The log entries added by the call, in chronological order, are grouped by chunk;
+    every `write()` of chunk `i` happened with the source standing exactly at the end of record `i`: the whole record
+    (header, body, tag) had been read and no later record had been touched. Sizes: the entries of a chunk sum to the chunk
+    length for every chunk but possibly the last one written, and all sizes together are the bytes appended to `out`. -/
+theorem decLoopIO_log (A : Aead) (hA : A.Lawful) (key aad : Bytes) (hk : key.length = 32) (cs : Nat) :
+    ∀ (fuel fuel0 ctr : Nat) (s : Src) (k : Snk) (res : Res) (s' : Src) (k' : Snk) (ws : List Bytes) (pres : Res),
+    s.noFalseEof → s.inp.length + 1 ≤ fuel → s.inp.length ≤ fuel0 →
+    decLoopIO A key aad cs fuel ctr s k = (res, s', k') →
+    decLoop A key aad cs fuel0 ctr s.inp = (ws, pres) →
+    ∃ segs : List (List WLog), k'.log = segs.flatten.reverse ++ k.log ∧ LogSegs s.pos ws segs ∧
+      k'.out.length = k.out.length + (segs.flatten.map (·.n)).sum := by
+  intro fuel
+  induction fuel with
+  | zero => intro fuel0 ctr s k res s' k' ws pres _ hf; omega
+  | succ f ih =>
+    intro fuel0 ctr s k res s' k' ws pres hnf hf hf0 hIO hP
+    rw [← decLoop_fuel_succ A key aad cs fuel0 ctr s.inp hf0, decLoop_succ] at hP
+    rw [decLoopIO_succ] at hIO
+    rcases hrr : readRecordIO A key aad cs ctr s with ⟨o, s3⟩
+    rw [hrr] at hIO
+    obtain ⟨hsc, hchunk, _⟩ := readRecordIO_spec hrr
+    cases o with
+    | fail e =>
+      simp only [Prod.mk.injEq] at hIO
+      obtain ⟨rfl, rfl, rfl⟩ := hIO
+      exact ⟨[], by simp, by simp [LogSegs], by simp⟩
+    | chunk pt last =>
+      obtain ⟨rest', hp1, hi3, hpos3, hlast⟩ := hchunk pt last rfl
+      rw [hp1] at hP
+      simp only at hP hIO
+      have hrl := parse1_chunk_len_lawful hA hk hp1
+      have hs3 : s3.pos = s.pos + 32 + pt.length := by omega
+      rcases hwc : writeChunk k (s3.pos, s3.nreads) pt with ⟨r, k2⟩
+      rw [hwc] at hIO
+      obtain ⟨p, L, ho, hpp, hpt, hlog, hLat, hLsum, _⟩ := writeChunk_spec hwc
+      have hple : p.length ≤ pt.length := by
+        obtain ⟨t, ht⟩ := hpp
+        rw [← ht, List.length_append]; omega
+      have hseg : ∀ e ∈ L.reverse, e.srcPos = s.pos + 32 + pt.length := by
+        intro e he
+        rw [← hs3]; exact (hLat e (List.mem_reverse.mp he)).1
+      have hsum : (L.reverse.map (·.n)).sum = p.length := by
+        rw [← hLsum, ← List.map_reverse, List.sum_reverse]
+      -- the run stops after this chunk
+      have hstop : ∀ ws1, k'.log = k2.log → k'.out = k2.out →
+          ∃ segs : List (List WLog), k'.log = segs.flatten.reverse ++ k.log ∧ LogSegs s.pos (pt :: ws1) segs ∧
+            k'.out.length = k.out.length + (segs.flatten.map (·.n)).sum := by
+        intro ws1 hl1 ho1
+        refine ⟨[L.reverse], by rw [hl1, hlog]; simp, ?_, by rw [ho1, ho]; simp [hsum]⟩
+        simp only [LogSegs, ne_eq, not_true_eq_false, false_implies, and_true, true_and]
+        exact ⟨hseg, by rw [hsum]; exact hple⟩
+      cases last with
+      | true =>
+        have hr : rest' = [] := hlast rfl hnf
+        subst hr
+        simp only [if_true, List.length_nil, ne_eq, not_true_eq_false, if_false, Prod.mk.injEq] at hP
+        obtain ⟨rfl, rfl⟩ := hP
+        cases r with
+        | false =>
+          simp only [Prod.mk.injEq] at hIO; obtain ⟨rfl, rfl, rfl⟩ := hIO
+          exact hstop [] rfl rfl
+        | true =>
+          simp only [if_true, Prod.mk.injEq] at hIO; obtain ⟨rfl, rfl, rfl⟩ := hIO
+          exact hstop [] rfl rfl
+      | false =>
+        simp only [Bool.false_eq_true, if_false, Prod.mk.injEq] at hP
+        obtain ⟨rfl, rfl⟩ := hP
+        cases r with
+        | false =>
+          simp only [Prod.mk.injEq] at hIO; obtain ⟨rfl, rfl, rfl⟩ := hIO
+          exact hstop _ rfl rfl
+        | true =>
+          simp only [Bool.false_eq_true, if_false] at hIO
+          obtain ⟨segs1, h1, h2, h3⟩ := ih fuel0 (ctr+1) s3 k2 res s' k' _ _ (Src.noFalseEof_of_suffix hnf hsc)
+            (by rw [hi3]; omega) (by rw [hi3]; omega) hIO (by rw [hi3])
+          refine ⟨L.reverse :: segs1, by rw [h1, hlog]; simp, ?_, ?_⟩
+          · simp only [LogSegs]
+            refine ⟨hseg, by rw [hsum]; exact hple, fun _ => by rw [hsum, hpt rfl], ?_⟩
+            rw [← hs3]; exact h2
+          · rw [h3, ho, hpt rfl]
+            simp only [List.length_append, List.flatten_cons, List.map_append, List.sum_append_nat, hsum, hpt rfl]
+            omega
+
+/-- **Refinement (f), index form.** `segs[i]` = the `write()` calls of chunk `i` (0-based within this call), oldest first;
+    each carries `srcPos = s.pos + recEnd ws i`. -/
+theorem decLoopIO_order (A : Aead) (hA : A.Lawful) (key aad : Bytes) (hk : key.length = 32) (cs : Nat)
+    {fuel fuel0 ctr : Nat} {s s' : Src} {k k' : Snk} {res : Res} {ws : List Bytes} {pres : Res}
+    (hnf : s.noFalseEof) (hf : s.inp.length + 1 ≤ fuel) (hf0 : s.inp.length ≤ fuel0)
+    (hIO : decLoopIO A key aad cs fuel ctr s k = (res, s', k'))
+    (hP : decLoop A key aad cs fuel0 ctr s.inp = (ws, pres)) :
+    ∃ segs : List (List WLog), k'.log = segs.flatten.reverse ++ k.log ∧ segs.length ≤ ws.length ∧
+      k'.out.length = k.out.length + (segs.flatten.map (·.n)).sum ∧
+      ∀ i seg, segs[i]? = some seg → ∃ w, ws[i]? = some w ∧ (∀ e ∈ seg, e.srcPos = s.pos + recEnd ws i) ∧
+        (seg.map (·.n)).sum ≤ w.length ∧ (i + 1 < segs.length → (seg.map (·.n)).sum = w.length) := by
+  obtain ⟨segs, h1, h2, h3⟩ := decLoopIO_log A hA key aad hk cs fuel fuel0 ctr s k res s' k' ws pres hnf hf hf0 hIO hP
+  obtain ⟨h4, h5⟩ := LogSegs.index ws segs s.pos h2
+  exact ⟨segs, h1, h4, h3, h5⟩
+
 end Kestrel
